@@ -1,9 +1,5 @@
-//! The generated interface family (see build.rs).
+//! The alphabets of the generated interface family as data (see gen.rs / build.rs). The traits
+//! generated from them live in the shard crates `vabi09fam_s*`.
 use crate::support::*;
-use savefile_abi::AbiConnection;
-use savefile_derive::savefile_abi_exportable;
-use std::future::Future;
-use std::pin::Pin;
-use vcommon::serde_json::Value;
 
-include!(concat!(env!("OUT_DIR"), "/family.rs"));
+include!(concat!(env!("OUT_DIR"), "/meta.rs"));
